@@ -139,8 +139,9 @@ def issue_text(issue):
     return str(getattr(issue, "issue", issue))
 
 
-def run_impl(rows=None, text=None, fixer_kind="default", tracker="raising", to="pdtable"):
-    """the real reader on native rows (parse_blocks) or on text (read_csv); per-block fixer snapshots"""
+def run_impl(rows=None, text=None, fixer_kind="default", tracker="raising", to="pdtable", grid=None):
+    """the real reader on native rows (parse_blocks) or on text (read_csv); per-block fixer snapshots.
+    `grid`: hand THIS list-of-lists object to parse_blocks (no copy), as a caller holding a grid in memory does"""
     from pdtable.io.parsers.blocks import parse_blocks
     from pdtable import read_csv
     from pdtable.table_origin import InputError
@@ -153,6 +154,8 @@ def run_impl(rows=None, text=None, fixer_kind="default", tracker="raising", to="
             warnings.simplefilter("ignore")
             if text is not None:
                 gen = read_csv(io.StringIO(text), to=to, issue_tracker=tr, fixer=arg)
+            elif grid is not None:
+                gen = parse_blocks(iter(grid), to=to, issue_tracker=tr, fixer=arg)
             else:
                 gen = parse_blocks(iter([list(r) for r in rows]), to=to, issue_tracker=tr, fixer=arg)
             for bt, val in gen:
@@ -185,7 +188,7 @@ def run_impl(rows=None, text=None, fixer_kind="default", tracker="raising", to="
 # --------------------------------------------------------------------------- generator
 
 def gen_table(rng, idx, native=False, allow_transposed=True):
-    n_col = rng.choice([1, 2, 2, 3, 3, 4])
+    n_col = rng.choice([1, 2, 2, 3, 3, 4, 5])
     n_row = rng.choice([1, 2, 2, 3, 4])
     transposed = allow_transposed and rng.random() < 0.35
     kinds = [rng.choice(["text", "onoff", "datetime", "num", "num"]) for _ in range(n_col)]
@@ -224,20 +227,65 @@ def inject(rng, tab, native=False, p_defect=0.75):
             d["illegal"][(i, j)] = v
         else:
             d["illegal"][(i, j)] = rng.choice(ILLEGAL[k])
-    if n_col >= 2 and rng.random() < 0.4:
-        for j in rng.sample(range(1, n_col), rng.choice([1, 1, min(2, n_col - 1)])):
-            d["dups"][j] = rng.randrange(0, j)
+    if n_col >= 2 and rng.random() < 0.45:
+        inject_dups(rng, tab, d)
     if not tab["transposed"] and n_col >= 2 and rng.random() < 0.45:
         for i in rng.sample(range(n_row), rng.choice([1, 1, min(2, n_row)])):
             d["short"][i] = rng.randrange(1, n_col)          # keep the first cell: the row stays in the block
     return d
 
 
+def taken_positions(names):
+    """header positions whose name is already taken by a (repaired) name to their left, and the repaired names —
+    the StarTable/fixer rule `<name>_fixed_NNN`, first free NNN (used by the generator to aim clash names)"""
+    emitted, taken = [], []
+    for j, n in enumerate(names):
+        if n in emitted:
+            taken.append(j)
+            k = 0
+            while f"{n}_fixed_{k:03}" in emitted:
+                k += 1
+            n = f"{n}_fixed_{k:03}"
+        emitted.append(n)
+    return taken, emitted
+
+
+def inject_dups(rng, tab, d):
+    """duplicate names; with good probability also a LATER column that literally carries the replacement name the
+    fixer generates for a duplicate (`a; a; a_fixed_000`), and a duplicate of that"""
+    n_col = len(tab["names"])
+    names = list(tab["names"])
+    marked = set()
+    for j in sorted(rng.sample(range(1, n_col), rng.choice([1, 1, min(2, n_col - 1)]))):
+        names[j] = names[rng.randrange(0, j)]
+        marked.add(j)
+    if rng.random() < 0.7:
+        for j in sorted(marked):
+            _, emitted = taken_positions(names)
+            later = [x for x in range(j + 1, n_col) if x not in marked]
+            if later and rng.random() < 0.75:
+                j2 = rng.choice(later)
+                names[j2] = emitted[j]                     # the replacement name of column j, literally
+                marked.add(j2)
+                later2 = [x for x in range(j2 + 1, n_col) if x not in marked]
+                if later2 and rng.random() < 0.4:
+                    j3 = rng.choice(later2)
+                    names[j3] = emitted[j]
+                    marked.add(j3)
+    taken, _ = taken_positions(names)
+    if set(taken) != marked:
+        return                                             # bookkeeping would be ambiguous: inject no name defect
+    d["dups"] = {j: names[j] for j in sorted(marked)}
+    d["hdr"] = names
+
+
+def header_names(tab, d):
+    return list(d.get("hdr") or tab["names"])
+
+
 def build_grid(tab, d=None, pad=False):
     d = d or {"illegal": {}, "dups": {}, "short": {}}
-    names = list(tab["names"])
-    for j in sorted(d["dups"]):
-        names[j] = names[d["dups"][j]]
+    names = header_names(tab, d)
     data = [list(r) for r in tab["data"]]
     for (i, j), v in d["illegal"].items():
         data[i][j] = v
@@ -272,9 +320,7 @@ def same_col(a, b):
 def expect_message_names_defects(texts, tab, d, out, case):
     """a strict failure's message names every injected defect"""
     msg = "\n".join(t for t in texts if t)
-    names = list(tab["names"])
-    for j in sorted(d["dups"]):
-        names[j] = names[d["dups"][j]]
+    names = header_names(tab, d)
     for j in sorted(d["dups"]):
         want = f"Duplicate column '{names[j]}' at position {j} "
         if want not in msg:
@@ -365,6 +411,33 @@ def check_lenient_table(t, base, tab, d, rep, fx, out, case):
     return True
 
 
+def reread_check(rng, out, case, rows, any_defect):
+    """a caller's in-memory grid: the read must not change it, and reading the SAME object again must give the
+    same verdict, shape and counters as reading a fresh copy of the original grid"""
+    seq = rng.choice([("lenient", "default"), ("default", "default"), ("lenient", "lenient"), ("custom", "strict")])
+    grid = [list(r) for r in rows]
+    snapshot = grid_to_json(rows)
+    for step, fk in enumerate(seq):
+        same = run_impl(fixer_kind=fk, tracker="collecting", grid=grid)
+        fresh = run_impl(rows=rows, fixer_kind=fk, tracker="collecting")
+        c = dict(case, reread={"sequence": list(seq), "step": step})
+        if grid_to_json(grid) != snapshot:
+            out.fail("reading changed the caller's cell grid", c, grid_to_json(grid), snapshot, key="grid_mutated")
+            return False
+        view = lambda r: {k: r[k] for k in ("blocks", "issues", "ending", "snaps", "fixer")}   # noqa: E731
+        if view(same) != view(fresh):
+            out.fail("a second read of the same in-memory grid differs from a read of the original grid", c,
+                     {"issues": same["issues"], "snaps": same["snaps"], "n_blocks": len(same["blocks"])},
+                     {"issues": fresh["issues"], "snaps": fresh["snaps"], "n_blocks": len(fresh["blocks"])},
+                     key="reread_differs")
+            return False
+        if MODEL_KIND[fk] == "strict" and any_defect and not same["issues"]:
+            out.fail("a strict re-read of a defective grid reported nothing", c, same["issues"], None,
+                     key="reread_strict_silent")
+            return False
+    return True
+
+
 # --------------------------------------------------------------------------- run
 
 def one_case(seed, idx, out, model_ok, ops, pend):
@@ -404,6 +477,7 @@ def one_case(seed, idx, out, model_ok, ops, pend):
             out.count("orientation:" + ("transposed" if t["transposed"] else "rowwise"))
             out.count("defects:illegal", len(effective_illegal(t, d)))
             out.count("defects:dup", len(d["dups"]))
+            out.count("defects:dup named like a replacement", sum(1 for n in d["dups"].values() if "_fixed_" in n))
             out.count("defects:short", len(d["short"]))
             for (i, j) in effective_illegal(t, d):
                 out.count("illegal:" + t["kinds"][j])
@@ -492,6 +566,10 @@ def one_case(seed, idx, out, model_ok, ops, pend):
             out.fail("a lenient read reported an error for repairable defects", case,
                      {"issues": impl["issues"], "ending": impl["ending"]}, None, key="lenient_failed")
             return
+        if not use_text:
+            out.count("reread: same grid object read twice")
+            if not reread_check(rng, out, case, rows, any(has_def)):
+                return
 
         # ---- model
         if model_ok:
